@@ -1331,7 +1331,7 @@ func (w *recWorld) scan(def *recSession) {
 	for _, n := range names {
 		f := w.files[n]
 		if f == nil {
-			f = &recFile{path: n}
+			f = &recFile{path: n, created: w.c.Stamp()}
 			w.files[n] = f
 		}
 		if f.key == "" {
